@@ -243,4 +243,8 @@ class Run:
             for v in vac:
                 print("VACUITY:", v)
             return 3
+        if self.undecided and evals == 0:
+            # undecided obligations and no bounded stand-in evaluated anything: the property is not decided on this tree (never a violation)
+            print(f"UNDECIDED property={self.pid}: {len(self.undecided)} obligation(s) could not be decided and no bounded stand-in covers them")
+            return 2
         return 0
